@@ -342,6 +342,19 @@ def has_undefined(v) -> bool:
 # ---------------------------------------------------------------------------
 
 
+def _iterate(indexer, fresh):
+    """Iterate an Indexer completely; iteration carries no state in the model, so a loop over the
+    same indexer object that follows an ABANDONED loop must yield the same items again."""
+    full = list(indexer)
+    ix = fresh()
+    it = iter(ix)
+    next(it, None)            # a loop that is left after the first item
+    again = list(ix)          # a new loop over the same indexer object
+    if len(again) != len(full):
+        return again           # reported (and judged) as the result of the iteration
+    return full
+
+
 def pysel(sel):
     if sel["t"] == "int":
         return int(sel["lo"])
@@ -493,9 +506,9 @@ def execute(world: World, h, res, rws):
         elif op == "Patches":
             r = a.patches[pysel(h["sel"])]
         elif op == "IterBins":
-            r = list(a.bins)
+            r = _iterate(a.bins, lambda: a.bins)
         elif op == "IterPatches":
-            r = list(a.patches)
+            r = _iterate(a.patches, lambda: a.patches)
         elif op == "PatchSum":
             r = a.sample_patch_sum()
         elif op == "Sample":
